@@ -203,7 +203,9 @@ def r08_2(ctx, rid="R08.2"):
                 if p.end[0] != "ret":
                     continue
                 sw = [i for i, e in enumerate(p.events) if e[0] == "call" and e[1] in ("std::mem::swap", "std::mem::replace", "std::mem::take")]
-                wr = [i for i, e in enumerate(p.events) if e[0] == "write" and e[1] == ("field", ("param", 1), "root", TREE)]
+                # (the write of the placeholder itself - `mem::replace(&mut self.root, Empty(false))` - does not count)
+                is_placeholder = lambda v: v == ("default",) or (v[0] == "agg" and v[1] == ITEM and v[2] == "Empty" and all(x[1][0] == "const" for x in v[3]))
+                wr = [i for i, e in enumerate(p.events) if e[0] == "write" and e[1] == ("field", ("param", 1), "root", TREE) and not is_placeholder(e[2])]
                 if sw and not (wr and wr[-1] > sw[-1]):
                     ok = False
             r.ob("conservation:placeholder-overwritten:%s" % name, ok, f.site, "self.root is reassigned after the root was swapped out, on every path (the placeholder `Empty(false)` would lose the tree's case flag)")
